@@ -462,14 +462,22 @@ def formula_tokens(rng, name, files=None):
 
 
 def command_line(rng, tool="cnfgen", files=None, want_random=None,
-                 seed=None, transforms=True, options=True):
+                 seed=None, transforms=True, options=True, document=0.0):
     """A (mostly) valid command line.  Returns dict(argv, random, name,
     output_format, outfile)."""
     files = files or {}
+    # document: probability of the richest kind of output, a LaTeX document
+    # about a formula transformed along a mapping given as a graph
+    # specification (everything the command line carries ends up in it)
+    doc = tool == "cnfgen" and transforms and options and \
+        rng.random() < document
     for _ in range(50):
         names = sorted(FORMULAS)
         chain = []
-        if tool == "cnfgen" and transforms and rng.random() < 0.35:
+        if doc:
+            names = sorted(n for n in SMALL_BASE if n in KNOWN_COUNT)
+            chain = [rng.choice(["xorcomp", "majcomp"])]
+        elif tool == "cnfgen" and transforms and rng.random() < 0.35:
             names = SMALL_BASE
             chain = [rng.choice(sorted(TRANSFORMS))
                      for _ in range(rng.choice([1, 1, 2]))]
@@ -490,10 +498,10 @@ def command_line(rng, tool="cnfgen", files=None, want_random=None,
                 argv.append(rng.choice(["-q", "-v", "--quiet", "--verbose"]))
             if rng.random() < 0.2:
                 argv.append("--varnames")
-            if rng.random() < 0.3:
+            if doc or rng.random() < 0.3:
                 fmts = ["dimacs", "opb", "latex"] if tool == "cnfgen" \
                     else ["opb", "latex"]
-                fmt = rng.choice(fmts)
+                fmt = "latex" if doc else rng.choice(fmts)
                 argv += [rng.choice(["-of", "--output-format"]), fmt]
             elif rng.random() < 0.1:
                 argv.append(rng.choice(["-l", "-l", "--latex"]))
@@ -510,7 +518,7 @@ def command_line(rng, tool="cnfgen", files=None, want_random=None,
         for ti, t in enumerate(chain):
             targs, trnd = TRANSFORMS[t](rng)
             if ti == 0 and t in ("xorcomp", "majcomp") and nvars and \
-                    rng.random() < 0.5:
+                    (doc or rng.random() < 0.5):
                 # the mapping given as a bipartite graph with one left
                 # vertex per variable of the formula
                 R = rng.randint(2, 5)
